@@ -3,7 +3,7 @@
       model state is matched by the model of Pipe/Model.v; no deadlock, no panic, no goroutine left, delivery. *)
 From Coq Require Import ZArith NArith List String Bool Lia.
 From Texel Require Import Pipe.Model Pipe.ProofsBase Pipe.ProofsInv Pipe.ProofsLive Pipe.Skeleton Pipe.SkeletonSem Pipe.SkeletonSim
-  Pipe.ProofsSkeleton Pipe.ProofsGenSkeleton Pipe.Converse Pipe.ProofsConverse8 Pipe.ProofsConverse9 Pipe.ProofsConverse11.
+  Pipe.ProofsSkeleton Pipe.ProofsGenSkeleton Pipe.Converse Pipe.ConverseRank Pipe.ProofsConverse8 Pipe.ProofsConverse9 Pipe.ProofsConverse11.
 From Texel.Gen Require Import PipeGen.
 Import ListNotations.
 Open Scope list_scope.
